@@ -611,12 +611,15 @@ func (g *Gen) StreamTx(o *lab.Obs, hostilePct int, denoms []string) *TxPlan {
 		return g.plan(s, nil, m)
 	}
 	st := o.Streams[r.Intn(len(o.Streams))]
-	sa, _ := g.acctByAddr(st.Sender)
-	ra, _ := g.acctByAddr(st.Receiver)
+	sa, okS := g.acctByAddr(st.Sender)
+	ra, okR := g.acctByAddr(st.Receiver)
+	if !okS { // a party without a key in the lab (an address of another length): somebody else tries
+		sa = g.randAcct()
+	}
 	switch kind {
 	case 1:
 		who := ra
-		if r.Chance(hostilePct) {
+		if !okR || r.Chance(hostilePct) {
 			who = g.randAcct()
 		}
 		m := &streamtypes.MsgClaimStream{Receiver: g.spell(who, 5), Sender: st.Sender}
